@@ -1,3 +1,4 @@
+//! Smallest concurrent scenario (engine smoke test) and a sequential real-Arc smoke test.
 use crate::rt::*;
 use crate::vptr::*;
 use arc_swap::{ArcSwapAny, Guard};
@@ -19,6 +20,13 @@ fn ctx() -> &'static mut Ctx {
 pub extern "C" fn basic_setup() {
     let v = VPtr::create(0, 10);
     ctx().a = Some(AS::new(v));
+}
+
+/// Prologue: the thread uses the crate once, so it owns a node (the precondition of C08).
+#[no_mangle]
+pub extern "C" fn basic_warm() {
+    let a = ctx().a.as_ref().unwrap();
+    drop(a.load());
 }
 
 #[no_mangle]
